@@ -610,6 +610,18 @@ Theorem c14_bytes_crash_address : forall rc e m d s x, wf_model e m = true -> du
 Proof. intros rc e m d s x Hwf Hd. rewrite (bytes_roundtrip rc e m Hwf) in Hd. exact (model_crash rc e m d s x Hwf Hd). Qed.
 Print Assumptions c14_bytes_crash_address.
 
+(* What the index depends on: two serialized dump models with the same header time and the same nine streams (system info, thread
+   list, thread names, exception, Breakpad info, misc info, Linux status, module list, unloaded module list) are processed to the same
+   record - whatever their leading (decoy / duplicate) directory entries, list padding, header version / checksum / flags, memory
+   lists, memory info, assertion, thread info, handle and other Linux streams. *)
+Theorem c14_bytes_depend_on_streams : forall rc e m1 m2, wf_model e m1 = true -> wf_model e m2 = true ->
+  m_time m1 = m_time m2 -> m_sysinfo m1 = m_sysinfo m2 -> m_threads m1 = m_threads m2 -> m_tnames m1 = m_tnames m2 ->
+  m_exception m1 = m_exception m2 -> m_breakpad m1 = m_breakpad m2 -> m_misc m1 = m_misc m2 -> m_lx_status m1 = m_lx_status m2 ->
+  m_modules m1 = m_modules m2 -> m_unloaded m1 = m_unloaded m2 ->
+  dump_of_bytes rc (encode_dump e m1) = dump_of_bytes rc (encode_dump e m2).
+Proof. exact bytes_depend_on_streams. Qed.
+Print Assumptions c14_bytes_depend_on_streams.
+
 (* names are kept apart: the integer a UTF-16 name is carried as determines the name *)
 Theorem c14_names_injective : forall u1 u2,
   Forall (fun x => 0 <= x < 65536) u1 -> Forall (fun x => 0 <= x < 65536) u2 -> pack_units u1 = pack_units u2 -> u1 = u2.
@@ -627,24 +639,35 @@ Definition bx_thread (id pc sp : Z) : mthread :=
 Definition bx_module (b s : Z) : mmodule :=
   {| md_base := b; md_size := s; md_checksum := 0; md_time := 0; md_name := [109]; md_ver := repeat 0 13; md_cv := CvNone;
      md_misc := (0, 0); md_res := [0; 0; 0; 0] |}.
-Definition bx_model : model :=
+Definition bx_with (exc_tid : option Z) (bp : option (list Z)) : model :=
   {| m_version := 42899; m_checksum := 0; m_time := 1262805309; m_flags := 0; m_extra_dir := []; m_pad_lists := false;
      m_sysinfo := Some {| si_arch := 5; si_level := 0; si_revision := 0; si_nproc := 1; si_ptype := 0; si_major := 0; si_minor := 0;
                           si_build := 0; si_platform := 33281; si_suite := 0; si_reserved2 := 0; si_cpu := repeat 0 24; si_csd := Some [] |};
      m_threads := Some [bx_thread 5 4096 65536; bx_thread 9 8192 65600; bx_thread 7 20500 65700];
      m_modules := Some [bx_module 4096 4096; bx_module 1879048192 65536];
      m_memory := None; m_memory64 := None;
-     m_exception := Some {| ex_thread_id := 7; ex_align := 0; ex_code := 11; ex_flags := 1; ex_record := 0; ex_address := 3735928559;
-                            ex_nparams := 0; ex_align2 := 0; ex_info := repeat 0 15; ex_ctx := Some (bx_ctx 20480 65800) |};
+     m_exception := match exc_tid with None => None | Some tid => Some {| ex_thread_id := tid; ex_align := 0; ex_code := 11; ex_flags := 1; ex_record := 0; ex_address := 3735928559;
+                            ex_nparams := 0; ex_align2 := 0; ex_info := repeat 0 15; ex_ctx := Some (bx_ctx 20480 65800) |} end;
      m_tnames := Some [(7, [110; 49]); (5, [110; 50]); (7, [110; 51])];
      m_unloaded := Some [ {| um_base := 20000; um_size := 1000; um_checksum := 0; um_time := 0; um_name := [117; 49] |};
                           {| um_base := 20400; um_size := 4096; um_checksum := 0; um_time := 0; um_name := [117; 50] |} ];
      m_meminfo := None;
      m_misc := Some (1, [24; 1; 4242; 77; 0; 0]);
-     m_breakpad := Some [3; 9; 5];
+     m_breakpad := bp;
      m_assertion := None; m_thread_info := None; m_lx_cpuinfo := None;
      m_lx_status := Some [80; 105; 100; 58; 9; 55; 10];
      m_lx_lsb := None; m_lx_environ := None; m_lx_maps := None; m_lx_limits := None; m_handles := None |}.
+Definition bx_model : model := bx_with (Some 7) (Some [3; 9; 5]).
+(* the exception thread IS the dump-writer thread: no requesting thread; no exception stream: the Breakpad info's requesting id
+   (thread 5, index 0) - unless its validity bit is clear; big-endian bytes give the same index *)
+Example c14_nonvacuous_bytes_requesting :
+  option_map requesting_thread (dump_of_bytes ctx_of_bytes (encode_dump LE (bx_with (Some 9) (Some [3; 9; 5])))) = Some None /\
+  option_map requesting_thread (dump_of_bytes ctx_of_bytes (encode_dump LE (bx_with None (Some [3; 9; 5])))) = Some (Some 0%nat) /\
+  option_map requesting_thread (dump_of_bytes ctx_of_bytes (encode_dump LE (bx_with None (Some [1; 9; 5])))) = Some None /\
+  option_map requesting_thread (dump_of_bytes ctx_of_bytes (encode_dump LE (bx_with (Some 9) (Some [2; 9; 5])))) = Some (Some 1%nat) /\
+  option_map requesting_thread (dump_of_bytes ctx_of_bytes (encode_dump BE (bx_with (Some 7) None))) = Some (Some 2%nat) /\
+  option_map requesting_thread (dump_of_bytes ctx_of_bytes (encode_dump LE (bx_with (Some 4) None))) = Some None.
+Proof. vm_compute. repeat split. Qed.
 Example c14_nonvacuous_bytes :
   wf_model LE bx_model = true /\ wf_model BE bx_model = true /\
   match dump_of_bytes ctx_of_bytes (encode_dump LE bx_model) with
